@@ -38,6 +38,11 @@ def cases(tier, seed, shard, nshards):
     if tier == "thorough" or shard < 3:
         for _b in range(1 if tier == "quick" else 2):
             yield _exec.busy_case(rng, 4500 if tier == "quick" else 9000, growing=True, p_suspend=0.1)
+    for i in range(max(12, N_MIX[tier] // 8)):
+        # batches that ask for more RAM than is free without overcommit, half of them flagged force_run: refused -
+        # otherwise the pool is over-allocated and containers inside their allocation get killed
+        yield _exec.mix_case(rng, 3 * 10 ** 5 + i, steps=60, p_bad=0.2, bad_kinds=["oversell-ram"], p_suspend=0.2,
+                             mem_heavy=True, p_unready=0.0, pools=rng.choice([1, 2]), npipes=rng.randint(4, 10), overcommit=False)
     for i in range(N_MIX[tier]):
         kw = dict(steps=rng.choice([40, 80, 160]), p_bad=0.0, integer_sizes=rng.random() < 0.5,
                   p_suspend=rng.choice([0.2, 0.6, 1.0]), mem_heavy=True, p_unready=0.0,
